@@ -365,10 +365,91 @@ def _():
             lambda W, a: W.flw.dem_adjust(W.arr(a["kind"], np.dtype(a.get("dt", "float32")))))
 
 
-@op("add_pits", group="mutate")
+# Flwdir.add_pits(streams=...) of a VECTOR network raises AttributeError ('Flwdir' object has no attribute 'snap') in the
+# tree under verification (reported; C13 finding). Until that is fixed the `streams=` variant is drawn for rasters only;
+# set to True to draw it for vector networks too.
+ADD_PITS_STREAMS_ON_VECTOR = True   # since fix 356b2c9 (F13j) the vector class snaps through core.snap
+_STREAM_KINDS = [None, None, None, "mask", "mask", "upa2", "upa3", "all", "none"]
+
+
+def upcount(ds):
+    """brute force: number of cells that drain through each cell, itself included (0 for cells outside the network)"""
+    n = len(ds)
+    cnt = [0] * n
+    for i in range(n):
+        if ds[i] == n:
+            continue
+        j, steps = i, 0
+        cnt[j] += 1
+        while ds[j] != j and ds[j] != n and steps <= n:
+            j = ds[j]
+            cnt[j] += 1
+            steps += 1
+    return cnt
+
+
+def stream_mask(w, kind):
+    """boolean stream mask of a world (list): the world's random mask, the cells with >= 2 / >= 3 upstream cells (what
+    users pass: upstream_area() >= threshold), every cell, no cell"""
+    n = len(w["ds"])
+    if kind == "mask":
+        return [bool(v) for v in w["mask"]]
+    if kind in ("upa2", "upa3"):
+        thr = int(kind[3:])
+        return [c >= thr for c in upcount(w["ds"])]
+    return [kind == "all"] * n
+
+
+@op("add_pits", group="mutate", variants=2)
 def _():
-    return (lambda rng, w: {"idxs": [rng.choice(w["valid"]) for _ in range(rng.randint(1, 2))]},
-            lambda W, a: (W.flw.add_pits(idxs=np.array(a["idxs"])), W.flw.idxs_ds.copy(), W.flw.idxs_pit, W.flw.rank)[1:])
+    """add_pits(idxs=... | xy=...) and the `streams=` variant: the new pits are snapped to the first downstream cell
+    of a boolean stream mask (start cells on and off the mask; raster shaped and flat mask). The network, the pits
+    and the rank afterwards are returned; the network and the pits are also compared with a brute-force walk."""
+    def gen(rng, w):
+        a = {"idxs": [rng.choice(w["valid"]) for _ in range(rng.randint(1, 2))]}
+        raster = w["cls"] == "raster"
+        kind = rng.choice(_STREAM_KINDS) if raster or ADD_PITS_STREAMS_ON_VECTOR else None
+        if kind:
+            m = stream_mask(w, kind)
+            on, off = [i for i in w["valid"] if m[i]], [i for i in w["valid"] if not m[i]]
+            pick = [rng.choice(off)] if off else []
+            if on and (not pick or rng.random() < 0.5):
+                pick.append(rng.choice(on))
+            a.update(idxs=pick or a["idxs"], streams=kind, flat=rng.random() < 0.3)
+        if raster and rng.random() < 0.25:
+            a["xy"] = True
+        return a
+
+    def call(W, a):
+        f = W.flw
+        n = W.n
+        kind = a.get("streams")
+        kw = {}
+        m = None
+        if kind:
+            m = stream_mask(W.w, kind)
+            kw["streams"] = np.array(m, dtype=bool) if a.get("flat") else W.arr(m, bool)
+        if a.get("xy"):
+            kw["xy"] = f.xy(np.array(a["idxs"]))
+        else:
+            kw["idxs"] = np.array(a["idxs"])
+        ds0 = [n if v == W.mv else v for v in np.asarray(f.idxs_ds).tolist()]
+        f.add_pits(**kw)
+        out = (f.idxs_ds.copy(), f.idxs_pit, f.rank)
+        # brute force: every start cell walks down the network as it was to the first stream cell (or pit)
+        exp = list(ds0)
+        for i in a["idxs"]:
+            j, steps = i, 0
+            while m is not None and not m[j] and ds0[j] != j and ds0[j] != n and steps <= n:
+                j, steps = ds0[j], steps + 1
+            exp[j] = j
+        got = [n if v == W.mv else int(v) for v in np.asarray(f.idxs_ds).tolist()]
+        pits = sorted(int(v) for v in np.asarray(f.idxs_pit).tolist())
+        if got != exp or pits != [i for i in range(n) if exp[i] == i]:
+            raise OracleMismatch(f"add_pits({'xy' if a.get('xy') else 'idxs'}={a['idxs']}, streams={kind}): network {got}, idxs_pit {pits}; "
+                                 f"brute force (first downstream stream cell of every start cell becomes a pit): network {exp}")
+        return out
+    return gen, call
 
 
 @op("repair_loops", group="mutate")
@@ -704,10 +785,55 @@ def _():
             lambda W, a: W.flw.stream_distance(mask=W.arr("mask", bool) if a["mask"] else None, unit=a["unit"]))
 
 
-@op("vectorize", classes=R, group="vector")
+# keyword name of the sample map -> (field of the world, dtype)
+_FEAT_MAPS = {"elv": ("elevf", np.float64), "cls": ("ints", np.int64), "riv": ("mask", bool), "upa": ("area_distinct", np.float64)}
+
+
+def _feat_args(rng, w):
+    """user coordinate rasters xs / ys (raster shaped or flat float64: a point inside every cell that is not the cell
+    centre, e.g. sub-grid river coordinates) and extra keyword maps sampled at the first cell of every feature"""
+    return {"coords": rng.choice([None, None, "raster", "raster", "flat"]),
+            "maps": sorted(rng.sample(sorted(_FEAT_MAPS), rng.choice([0, 0, 1, 2])))}
+
+
+def _feat_kwargs(W, a):
+    kw = {}
+    xs = ys = None
+    if a.get("coords"):
+        ncol = W.shape[1]
+        xs = [100.0 + i % ncol + (W.w["elev"][i] % 7 + 1) / 8.0 for i in range(W.n)]
+        ys = [50.0 - i // ncol - (W.w["ints"][i] + 4) / 16.0 for i in range(W.n)]
+        if a["coords"] == "flat":
+            kw["xs"], kw["ys"] = np.array(xs, dtype=np.float64), np.array(ys, dtype=np.float64)
+        else:
+            kw["xs"], kw["ys"] = W.arr(xs, np.float64), W.arr(ys, np.float64)
+    maps = {k: W.arr(*_FEAT_MAPS[k]) for k in a.get("maps", [])}
+    kw.update(maps)
+    return kw, xs, ys, maps
+
+
+def _feats_checked(W, feats, xs, ys, maps, what):
+    """features with user coordinates: every line starts at the coordinates of its `idx` cell and ends at those of its
+    `idx_ds` cell; every extra map is sampled at the `idx` cell"""
+    for ft in feats:
+        p, c = ft["properties"], ft["geometry"]["coordinates"]
+        i, j = int(p["idx"]), int(p["idx_ds"])
+        if xs is not None and (tuple(map(float, c[0])) != (xs[i], ys[i]) or tuple(map(float, c[-1])) != (xs[j], ys[j])):
+            raise OracleMismatch(f"{what}: feature idx={i} idx_ds={j} runs from {tuple(c[0])} to {tuple(c[-1])}; xs / ys at these "
+                                 f"cells are {(xs[i], ys[i])} and {(xs[j], ys[j])}")
+        for k, v in maps.items():
+            if canon(p[k]) != canon(v.flat[i]):
+                raise OracleMismatch(f"{what}: feature idx={i}: property {k} = {p[k]!r}, the map holds {v.flat[i]!r} there")
+    return feats_canon(feats)
+
+
+@op("vectorize", classes=R, group="vector", variants=2)
 def _():
-    return (lambda rng, w: {"mask": rng.random() < 0.4, "direction": rng.choice(["down", "up"])},
-            lambda W, a: feats_canon(W.flw.vectorize(mask=W.arr("mask", bool) if a["mask"] else None, direction=a["direction"])))
+    def call(W, a):
+        kw, xs, ys, maps = _feat_kwargs(W, a)
+        feats = W.flw.vectorize(mask=W.arr("mask", bool) if a["mask"] else None, direction=a["direction"], **kw)
+        return _feats_checked(W, feats, xs, ys, maps, "vectorize")
+    return (lambda rng, w: dict({"mask": rng.random() < 0.4, "direction": rng.choice(["down", "up"])}, **_feat_args(rng, w)), call)
 
 
 @op("streams", classes=R, group="vector", variants=4)
@@ -719,9 +845,11 @@ def _():
         if a["idxs_out"]:
             kw["idxs_out"] = np.array(W.w["valid"][:3], dtype=W.flw.idxs_ds.dtype)
             kw["direction"] = a["direction"]
-        return feats_canon(W.flw.streams(**kw))
-    return (lambda rng, w: {"min_sto": rng.choice([1, 2]), "max_len": rng.choice([0, 1, 2, 3, 4, 5, 7]), "strord": rng.random() < 0.3,
-                            "idxs_out": rng.random() < 0.25, "direction": rng.choice(["up", "down"])}, call)
+        kw2, xs, ys, maps = _feat_kwargs(W, a)
+        kw.update(kw2)
+        return _feats_checked(W, W.flw.streams(**kw), xs, ys, maps, "streams")
+    return (lambda rng, w: dict({"min_sto": rng.choice([1, 2]), "max_len": rng.choice([0, 1, 2, 3, 4, 5, 7]), "strord": rng.random() < 0.3,
+                                 "idxs_out": rng.random() < 0.25, "direction": rng.choice(["up", "down"])}, **_feat_args(rng, w)), call)
 
 
 @op("upscale", classes=R, group="upscale", variants=5)
@@ -753,7 +881,7 @@ def _():
                             "unit": rng.choice(["cell", "m2", "km2"]), "own": rng.random() < 0.5}, call)
 
 
-@op("subgrid_riv", classes=R, group="subgrid", variants=3)
+@op("subgrid_riv", classes=R, group="subgrid", variants=2)
 def _():
     def call(W, a):
         up = W.uparea_distinct()
@@ -772,7 +900,7 @@ def _():
         rs = W.flw.subgrid_rivslp(idxs_out, W.arr("elevf", np.float64), length=a["length"], direction=a["sdir"],
                                   method=a["smethod"], mask=msk)
         return rl, ra, rm, rs
-    return (lambda rng, w: {"s": rng.choice([1, 2, 2, 2, 3, 3, 3]), "own": rng.random() < 0.5, "method": rng.choice(["eam_plus", "dmm"]),
+    return (lambda rng, w: {"s": rng.choice([1, 2, 2, 3, 3]), "own": rng.random() < 0.5, "method": rng.choice(["eam_plus", "dmm"]),
                             "outs": rng.random() < 0.8, "mask": rng.random() < 0.4,
                             "drop": rng.choice([0, 0, 1, 2, 3, 5]), "weights": rng.random() < 0.4,
                             "direction": rng.choice(["up", "down"]), "unit": rng.choice(["cell", "m"]),
